@@ -56,6 +56,16 @@ reg("C03", "exploration",
     "its alternatives validated alone. Absence outside the grid/lattice is not shown.",
     BASE_NOTE + "The Python-level validate method is the reference, as the statement says.", "DESIGN.md 3/C03")
 
+reg("C01", "exploration",
+    "exhaustive (configuration x route x value lattice) grid + Hypothesis-generated nested specifications, judged by documentation-derived reference predicates, an independent domain predicate and snapshot equality on rejection",
+    "Each of ~190 configurations (all fast scalar types and Base twins, casts, int/float Range with every bound/exclusivity "
+    "combination, Enum, Map, PrefixList/Map, Tuple, Instance/Type/This/Callable with allow_none and adapt modes, String, "
+    "List/Dict/Set, Either/Union/Trait compounds) is driven through the whole ~150-value lattice by setattr, trait_set, "
+    "trait_setq and constructor keyword on one object (exhaustive inside grid x lattice), plus generated nestings. "
+    "Absence outside the grid/lattice is not shown; Array/Date/File traits are not covered.",
+    BASE_NOTE + "References are my reading of the documentation; where it is silent only the domain predicate is applied.",
+    "DESIGN.md 3/C01")
+
 
 def main():
     props = [json.loads(l) for l in open(os.path.join(ROOT, "properties.jsonl"))]
